@@ -30,6 +30,11 @@ const USER: &str = "turnuser";
 const PASS: &str = "turnpass";
 const WAIT: Duration = Duration::from_secs(8); // positive waits for what the model expects
 
+/// how long "no further request" is observed after a step (EXT conformance only; C16 runs use a short window)
+fn quiet() -> Duration {
+    Duration::from_millis(std::env::var("VERIF_TURN_QUIET_MS").ok().and_then(|s| s.parse().ok()).unwrap_or(30))
+}
+
 fn realm(r: u64) -> String {
     format!("realm{r}.example.org")
 }
@@ -141,6 +146,50 @@ struct World {
     pending_channel: Option<u16>,
     rec: Arc<Recorder>,
     seen_inner: Vec<[u8; 12]>,
+    /// C16, independent of the model: every authenticated message the client sent, checked on its own terms
+    wire_checked: u64,
+    wire_problems: Vec<Value>,
+}
+
+/// C16 rule LongTermKeyMatchesRealm (+ attribute order): the MESSAGE-INTEGRITY of an authenticated TURN message
+/// verifies under MD5(user : REALM attribute of that very message : password); MI is the last attribute before
+/// FINGERPRINT, FINGERPRINT (if any) is last and valid.
+fn wire_check(m0: &Message) -> Vec<String> {
+    let mut bad = Vec::new();
+    let mut m = m0.clone();
+    if m.contains(ATTR_MESSAGE_INTEGRITY) {
+        match (m.get(ATTR_USERNAME), m.get(ATTR_REALM)) {
+            (Ok(u), Ok(r)) => {
+                let k = stun::integrity::MessageIntegrity::new_long_term_integrity(
+                    String::from_utf8_lossy(&u).to_string(),
+                    String::from_utf8_lossy(&r).to_string(),
+                    PASS.into(),
+                )
+                .0;
+                if let Err(e) = stun::integrity::MessageIntegrity(k).check(&mut m) {
+                    bad.push(format!(
+                        "MESSAGE-INTEGRITY does not verify under MD5(user:{}:pass), the realm this message carries: {e}",
+                        String::from_utf8_lossy(&r)
+                    ));
+                }
+            }
+            _ => bad.push("MESSAGE-INTEGRITY without USERNAME / REALM".into()),
+        }
+        let n = m.attributes.0.len();
+        let pos = m.attributes.0.iter().position(|a| a.typ == ATTR_MESSAGE_INTEGRITY);
+        let want = if m.contains(ATTR_FINGERPRINT) { n.wrapping_sub(2) } else { n.wrapping_sub(1) };
+        if pos != Some(want) {
+            bad.push("MESSAGE-INTEGRITY is not the last attribute before FINGERPRINT".into());
+        }
+    }
+    if m.contains(ATTR_FINGERPRINT) {
+        if m.attributes.0.last().map(|a| a.typ) != Some(ATTR_FINGERPRINT) {
+            bad.push("FINGERPRINT is not last".into());
+        } else if let Err(e) = stun::fingerprint::FINGERPRINT.check(&m) {
+            bad.push(format!("FINGERPRINT: {e}"));
+        }
+    }
+    bad
 }
 
 fn method_name(m: &Message) -> String {
@@ -295,6 +344,13 @@ impl World {
             let left = deadline.saturating_duration_since(Instant::now());
             let bytes = self.srv.next(left).await?;
             let Ok(msg) = parse(&bytes) else { return Some((bytes.clone(), Msg::Chan(0, bytes))) };
+            if let Msg::Stun(m) = &msg {
+                self.wire_checked += 1;
+                let bad = wire_check(m);
+                if !bad.is_empty() && self.wire_problems.len() < 8 {
+                    self.wire_problems.push(json!({"method": method_name(m), "class": m.typ.class.to_string(), "problems": bad}));
+                }
+            }
             if let Some(p) = relayed_payload(&msg) {
                 let (k, tx) = inner_kind(&p);
                 if k == "keepalive" {
@@ -333,14 +389,14 @@ impl World {
                     stun::integrity::MessageIntegrity(key(r)).add_to(&mut resp).unwrap();
                 }
             }
-            "e401" | "e438" | "e438r" => {
+            "e401" | "e401r" | "e438" | "e438r" => {
                 *sn += 1;
-                if react == "e438r" {
+                if react == "e438r" || react == "e401r" {
                     *sr += 1;
                 }
                 resp.typ = MessageType::new(req.typ.method, CLASS_ERROR_RESPONSE);
                 resp.write_header();
-                let code: u16 = if react == "e401" { 401 } else { 438 };
+                let code: u16 = if react.starts_with("e401") { 401 } else { 438 };
                 resp.add(ATTR_ERROR_CODE, &[0, 0, (code / 100) as u8, (code % 100) as u8, b'x']);
                 resp.add(ATTR_REALM, realm(*sr).as_bytes());
                 resp.add(ATTR_NONCE, nonce(*sn).as_bytes());
@@ -425,7 +481,7 @@ async fn serve(w: &mut World, step: &Value, lifetime: u32, sn: &mut u64, sr: &mu
     Ok(())
 }
 
-async fn run_scenario(run: &Value, rng: &mut Rng) -> Result<(), Value> {
+async fn run_scenario(run: &Value, rng: &mut Rng, wire: &mut (u64, Vec<Value>)) -> Result<(), Value> {
     let tr = run["tr"].as_str().unwrap();
     let steps = run["steps"].as_array().unwrap();
     let (srv, url) = Server::bind(tr).await;
@@ -443,7 +499,7 @@ async fn run_scenario(run: &Value, rng: &mut Rng) -> Result<(), Value> {
     let rec = Arc::new(Recorder(Mutex::new(Vec::new())));
     let relayed: SocketAddr = format!("127.0.0.1:{}", 50000 + rng.below(10000)).parse().unwrap();
     let peer: SocketAddr = format!("127.0.0.1:{}", 30000 + rng.below(10000)).parse().unwrap();
-    let mut w = World { srv, agent, relayed, peer, channel: None, pending_channel: None, rec, seen_inner: vec![] };
+    let mut w = World { srv, agent, relayed, peer, channel: None, pending_channel: None, rec, seen_inner: vec![], wire_checked: 0, wire_problems: vec![] };
     let (mut sn, mut sr) = (0u64, 0u64);
     let mut lifetime = 600u32;
     let mut result = Ok(());
@@ -483,7 +539,7 @@ async fn run_scenario(run: &Value, rng: &mut Rng) -> Result<(), Value> {
                     break;
                 }
                 // no request beyond the expected ones
-                if let Some((_, m)) = w.next_relevant(Duration::from_millis(30)).await {
+                if let Some((_, m)) = w.next_relevant(quiet()).await {
                     if let Msg::Stun(m) = m {
                         result = Err(fail(format!("unexpected extra request {}", method_name(&m))));
                         break;
@@ -515,7 +571,7 @@ async fn run_scenario(run: &Value, rng: &mut Rng) -> Result<(), Value> {
                 }
                 if !want_connected {
                     ok = w.agent.state() == IceTransportState::Checking && w.agent.get_selected_pair().is_none();
-                    if let Some((_, Msg::Stun(m))) = w.next_relevant(Duration::from_millis(30)).await {
+                    if let Some((_, Msg::Stun(m))) = w.next_relevant(quiet()).await {
                         result = Err(fail(format!("unexpected request after the failed permission: {}", method_name(&m))));
                         break;
                     }
@@ -577,7 +633,7 @@ async fn run_scenario(run: &Value, rng: &mut Rng) -> Result<(), Value> {
                     result = Err(fail("refresh round did not finish".into()));
                     break;
                 }
-                if let Some((_, Msg::Stun(m))) = w.next_relevant(Duration::from_millis(30)).await {
+                if let Some((_, Msg::Stun(m))) = w.next_relevant(quiet()).await {
                     result = Err(fail(format!("unexpected extra request {}", method_name(&m))));
                     break;
                 }
@@ -624,7 +680,7 @@ async fn run_scenario(run: &Value, rng: &mut Rng) -> Result<(), Value> {
                     if result.is_err() {
                         break;
                     }
-                } else if let Some((_, Msg::Stun(m))) = w.next_relevant(Duration::from_millis(50)).await {
+                } else if let Some((_, Msg::Stun(m))) = w.next_relevant(quiet()).await {
                     if m.typ.class == CLASS_REQUEST {
                         result = Err(fail(format!("unexpected request after stop: {}", method_name(&m))));
                         break;
@@ -636,6 +692,8 @@ async fn run_scenario(run: &Value, rng: &mut Rng) -> Result<(), Value> {
     }
     w.agent.stop();
     runner.abort();
+    wire.0 += w.wire_checked;
+    wire.1.append(&mut w.wire_problems);
     result
 }
 
@@ -668,8 +726,15 @@ fn main() {
         rng.next();
         // a runtime per scenario: dropping it kills every task of the agent
         let rt = tokio::runtime::Builder::new_current_thread().enable_all().build().unwrap();
-        let res = rt.block_on(run_scenario(&run, &mut rng));
+        let mut wire = (0u64, Vec::new());
+        let res = rt.block_on(run_scenario(&run, &mut rng, &mut wire));
         rt.shutdown_background();
+        *stats.entry("wire_checked".into()).or_default() += wire.0;
+        for p in wire.1 {
+            *stats.entry("wire_problems".into()).or_default() += 1;
+            let reacts: Vec<Value> = run["steps"].as_array().unwrap().iter().map(|s| json!([s["op"], s["reacts"]])).collect();
+            o.push(&json!({"type": "wire", "rule": "LongTermKeyMatchesRealm", "detail": p, "tr": run["tr"], "script": reacts, "case": run}));
+        }
         *stats.entry("scenarios".into()).or_default() += 1;
         *stats.entry("steps".into()).or_default() += run["steps"].as_array().unwrap().len() as u64;
         match res {
